@@ -171,6 +171,10 @@ def gen_xvg(rng, regime="gromacs"):
     for r in range(n_rows):
         cells = [("%12.6f" % (r * 0.002 * 10 ** int(rng.integers(0, 4)))).strip() if rng.random() < 0.8 else _value_text(rng, regime).strip()]
         cells += [_value_text(rng, regime).strip() for _ in range(L)]
+        if r > 0 and rng.random() < 0.2:
+            # a data line identical to an earlier one in every column (constant observable at a repeated time stamp, single-point
+            # evaluations all written with time 0): still one row per data line
+            cells = list(rows[int(rng.integers(0, r))])
         rows.append(cells)
         style = rng.random()
         if style < 0.6:
